@@ -53,6 +53,9 @@ FRESH_METHODS = {
     "split", "rsplit", "strip", "lower", "upper", "format", "join", "replace", "encode", "decode", "startswith", "endswith", "title", "ljust", "rstrip", "lstrip",
     "get_userspace_location", "getStatNames", "getVariableFonts", "normalizeLocation", "most_common", "groupby", "getDataForSerialization",
 }
+# ... of which these return a new container / record whose CONTENTS are still the receiver's own objects
+SHALLOW_FRESH_METHODS = {"values", "items", "asdict", "serialize", "getFullDesignLocation", "getFullUserLocation", "get_userspace_location", "getStatNames",
+                         "getVariableFonts", "groupby", "most_common", "getDataForSerialization"}
 PURE_BUILTINS = {
     "len", "isinstance", "issubclass", "hasattr", "int", "float", "str", "bool", "abs", "round", "any", "all", "repr",
     "hash", "id", "ord", "chr", "print", "callable", "format", "divmod", "pow", "hex", "bin", "oct", "otRound", "range", "bytes", "bytearray",
@@ -1760,6 +1763,20 @@ class Analysis:
                     out |= self.F[(o, "k:" + k)]
         return out
 
+    def iter_elements(self, objs):
+        """what ITERATING over the objects yields: their elements -- except for a value that certainly is a dict (or a
+        subclass): iterating a dict yields its KEYS, which are kept in the field "keys" (strings and numbers are not
+        objects, so for the usual name -> object dictionaries that field is empty)"""
+        out = set()
+        for o in objs:
+            if o.kind in ("inst", "cont"):
+                t = self.pytype_of(o)
+                if t is not None and issubclass(t, dict):
+                    out |= self.F[(o, "keys")]
+                    continue
+            out |= self.elements({o})
+        return out
+
     def elements_unkeyed(self, o):
         out = set(self.F[(o, "[]")])
         if o.kind == "inst":
@@ -1790,7 +1807,7 @@ class Analysis:
         el = set()
         for e in node.elts:
             if isinstance(e, ast.Starred):
-                el |= self.elements(self.ev(e.value, ctx))
+                el |= self.iter_elements(self.ev(e.value, ctx))
             else:
                 el |= self.ev(e, ctx)
         return self.new_cont(node, el, what)
@@ -1810,11 +1827,12 @@ class Analysis:
     def e_Dict(self, node, ctx):
         el = set()
         keyed = []
+        keyobjs = set()
         for k, v in zip(node.keys, node.values):
             if k is None:
                 el |= self.elements(self.ev(v, ctx))
             else:
-                self.ev(k, ctx)  # keys are (hashable, hence immutable) values: not tracked as elements
+                keyobjs |= self.ev(k, ctx)  # keys are not elements (values); they are what iteration yields
                 ks = self.strs(k, ctx)
                 if ks:
                     vv = self.ev(v, ctx)
@@ -1825,12 +1843,17 @@ class Analysis:
         (o,) = r
         for kk, vs in keyed:
             self.add(self.F[(o, "k:" + kk)], vs)
+        self.add(self.F[(o, "keys")], keyobjs)
+        for k, v in zip(node.keys, node.values):
+            if k is None:  # {**other}: its keys too
+                for d in self.ev(v, ctx):
+                    self.add(self.F[(o, "keys")], self.F[(d, "keys")] if d.kind in ("cont", "inst") else {d} if d.kind in ("SRC", "GS") else set())
         return r
 
     def comp(self, node, ctx, elts):
         for g in node.generators:
             it = self.ev(g.iter, ctx)
-            self.assign(g.target, self.elements(it), ctx, node, is_comp=True)
+            self.assign(g.target, self.iter_elements(it), ctx, node, is_comp=True)
             for c in g.ifs:
                 self.ev(c, ctx)
         el = set()
@@ -1851,7 +1874,10 @@ class Analysis:
             self.deferred -= 1
 
     def e_DictComp(self, node, ctx):
-        return self.comp(node, ctx, [node.value])
+        r = self.comp(node, ctx, [node.value])
+        (o,) = r
+        self.add(self.F[(o, "keys")], self.ev(node.key, ctx))
+        return r
 
     def e_IfExp(self, node, ctx):
         c = self.const(node.test, ctx)
@@ -1919,7 +1945,7 @@ class Analysis:
         return o
 
     def e_Starred(self, node, ctx):
-        return self.elements(self.ev(node.value, ctx))
+        return self.iter_elements(self.ev(node.value, ctx))
 
     def e_Await(self, node, ctx):
         return self.ev(node.value, ctx)
@@ -1968,7 +1994,7 @@ class Analysis:
                             vals |= self.F[(o, ("pos", i))]
                         args.append((None, vals))
                 else:
-                    args.append(("*", self.elements(tv)))
+                    args.append(("*", self.iter_elements(tv)))
             else:
                 args.append((a, self.ev(a, ctx)))
         kwargs = {}
@@ -2032,10 +2058,13 @@ class Analysis:
                 return self.derived_doc(node, {o})
             if name == "copy":
                 return self.shallow_copy(node, {o})
-            if name in FRESH_METHODS:
-                return self.new_ext(node, {o} | A, through=False)
             if name == "items":
                 return self.rows(node, [set(), {o}], "items")
+            if name in SHALLOW_FRESH_METHODS:
+                # a NEW collection / record, but what it holds are the source's own objects
+                return self.shallow_copy(node, {o})
+            if name in FRESH_METHODS:
+                return self.new_ext(node, {o} | A, through=False)
             if name == "get" or name == "__getitem__":
                 r = {o}
                 for _, s in args[1:]:
@@ -2111,6 +2140,8 @@ class Analysis:
         if name in ("setdefault", "__setitem__", "insert"):
             # first argument is a key / position, not an element
             self.mutate({o}, node, f".{name}()")
+            if args and name != "insert":
+                self.add(self.F[(o, "keys")], args[0][1])
             rest = set()
             for _, s_ in args[1:]:
                 rest |= s_
@@ -2143,6 +2174,7 @@ class Analysis:
             if name == "update":
                 # dict.update(iterable of (key, value) pairs): the values are the new elements
                 self.add(el, self.pair_values(self.elements(A)))
+                self.add(self.F[(o, "keys")], self.pair_keys(A))
             for _, (_, s) in kwargs.items():
                 self.add(el, s)
             return set()
@@ -2157,13 +2189,37 @@ class Analysis:
                 r = r | {self.NONE}  # d.get(k) is None for a missing key
             return r
         if name == "items":
-            return self.rows(node, [set(), self.elements({o})], "items")
+            return self.rows(node, [set(self.F[(o, "keys")]), self.elements({o})], "items")
+        if name in ("keys", "__iter__") and o.kind in ("inst", "cont") and self.pytype_of(o) is not None and issubclass(self.pytype_of(o), dict):
+            return self.new_cont(node, set(self.F[(o, "keys")]), name)  # the keys of a dict
         if name in ("values", "keys", "copy", "__iter__", "union", "difference", "intersection", "most_common", "elements"):
             extra = self.elements(A) if name in ("union",) else set()
             return self.new_cont(node, self.elements({o}) | extra, name)
         if name in ("index", "count", "isdisjoint", "issubset", "issuperset", "__contains__", "__len__", "join", "format"):
             return set()
         return self.elements({o})
+
+    def pair_keys(self, srcs):
+        """keys contributed by the argument(s) of dict(...) / d.update(...): the keys of a mapping, or the first
+        components of an iterable of pairs"""
+        out = set()
+        for d in srcs:
+            if d.kind in ("SRC", "GS"):
+                out.add(d)
+                continue
+            if d.kind in ("cont", "inst"):
+                out |= self.F[(d, "keys")]
+                t = self.pytype_of(d)
+                if t is not None and issubclass(t, dict):
+                    continue
+            for p_ in self.elements({d}):
+                if p_.kind == "cont" and isinstance(p_.py, int) and p_.py >= 1:
+                    out |= self.F[(p_, ("pos", 0))]
+                elif p_.kind in ("SRC", "GS"):
+                    out.add(p_)
+                else:
+                    out |= self.elements({p_})
+        return out
 
     def pair_values(self, objs):
         """values of (key, value) pairs: the second position of 2-tuples, every element of anything else"""
@@ -2251,6 +2307,7 @@ class Analysis:
                     # dict.__init__(pairs) / list.__init__(iterable) / Exception.__init__(*args): the elements
                     el = self.elements(A)
                     self.add(self.F[(c.self_, "[]")], el | self.pair_values(el) | {x for x in A if x.kind in ("SRC", "GS")})
+                    self.add(self.F[(c.self_, "keys")], self.pair_keys(A))
                     for kk, (_, s_) in kwargs.items():
                         self.add(self.F[(c.self_, "[]")], s_)
                     return set()
@@ -2310,7 +2367,7 @@ class Analysis:
             if name in COPYING_BUILTINS or pycls in (list, tuple, set, frozenset, dict):
                 pos_el = set()
                 for _, s_ in args:
-                    pos_el |= self.elements(s_)
+                    pos_el |= (self.elements(s_) if (isinstance(pycls, type) and issubclass(pycls, dict)) else self.iter_elements(s_))
                 if isinstance(pycls, type) and issubclass(pycls, dict):
                     if name == "defaultdict":
                         # defaultdict(factory): a missing key is filled with factory(): those values are
@@ -2326,6 +2383,11 @@ class Analysis:
                         pos_el = self.pair_values(pos_el) | {x for _, s_ in args for x in s_ if x.kind in ("SRC", "GS")}
                 r = self.new_cont(node, pos_el | self.elements(star_kw), name)
                 (o,) = r
+                if isinstance(pycls, type) and issubclass(pycls, dict):
+                    if name == "Counter":
+                        self.add(self.F[(o, "keys")], {x for _, s_ in args for x in self.iter_elements(s_)})
+                    else:
+                        self.add(self.F[(o, "keys")], self.pair_keys({x for _, s_ in (args[1:] if name == "defaultdict" else args) for x in s_}))
                 for kk, (_, s_) in kwargs.items():
                     self.add(self.F[(o, "k:" + kk)], s_)
                 for _, s_ in args:  # dict(other): keyed entries are copied
@@ -2337,13 +2399,13 @@ class Analysis:
                 return r
             if name in ("zip", "zip_longest"):
                 fill = ((kwargs.get("fillvalue") or (None, {self.NONE}))[1]) if name == "zip_longest" else set()
-                return self.rows(node, [self.elements(s_) | fill for _, s_ in args], name)
+                return self.rows(node, [self.iter_elements(s_) | fill for _, s_ in args], name)
             if name == "partial":
                 return self.new_partial(node, args, kwargs)
             if name == "enumerate":
-                return self.rows(node, [set(), self.elements(args[0][1]) if args else set()], name)
+                return self.rows(node, [set(), self.iter_elements(args[0][1]) if args else set()], name)
             if name in ITER_BUILTINS or mod == "itertools":
-                return self.new_cont(node, self.elements(A) | cb_results | {x for x in A if x.kind == "func"}, name)
+                return self.new_cont(node, self.iter_elements(A) | cb_results | {x for x in A if x.kind == "func"}, name)
             # library object: may keep references to its arguments; a pen forwards what is drawn into it to
             # its FIRST argument (the output pen) only
             pen_like = name.endswith("Pen") or "Pen" in name
@@ -2427,6 +2489,7 @@ class Analysis:
             el = self.elements(A)
             if issubclass(pycls, dict):
                 self.add(self.F[(o, "[]")], self.pair_values(el) | {x for x in A if x.kind in ("SRC", "GS")})
+                self.add(self.F[(o, "keys")], self.pair_keys(A))
                 for kk, (_, s_) in kwargs.items():
                     self.add(self.F[(o, "[]")], s_)
             else:
@@ -2487,13 +2550,13 @@ class Analysis:
             # one of the arguments, or one of the elements of the (single) iterable argument
             out = set()
             for _, s_ in args:
-                out |= self.elements(s_) | {x for x in s_ if x.kind not in ("cont", "func", "bound")}
+                out |= self.iter_elements(s_) | {x for x in s_ if x.kind not in ("cont", "func", "bound")}
             out |= (kwargs.get("default") or (None, set()))[1]
             return out
         if name == "sum":
             el = set()
             for _, s_ in args:
-                el |= self.elements(self.elements(s_)) | self.elements(s_)
+                el |= self.elements(self.iter_elements(s_)) | self.iter_elements(s_)
             return self.new_cont(node, el, "sum")
         if name == "cast" and len(args) == 2:
             return set(args[1][1])
@@ -2524,19 +2587,22 @@ class Analysis:
         if name == "copy" and py is not None and getattr(py, "__module__", "") == "copy":
             return self.shallow_copy(node, A)
         if name in COPYING_BUILTINS:
-            el = self.elements(A)
+            el = self.elements(A) if name in ("dict", "OrderedDict", "defaultdict", "Counter") else self.iter_elements(A)
             if name in ("dict", "OrderedDict", "defaultdict", "Counter"):
-                el = self.pair_values(el) | el
+                r = self.new_cont(node, self.pair_values(el) | el, name)
+                (o,) = r
+                self.add(self.F[(o, "keys")], self.pair_keys(A) | (self.iter_elements(A) if name == "Counter" else set()))
+                return r
             return self.new_cont(node, el, name)
         if name in ("zip", "zip_strict", "zip_longest"):
             fill = ((kwargs.get("fillvalue") or (None, {self.NONE}))[1]) if name == "zip_longest" else set()
-            return self.rows(node, [self.elements(s_) | fill for _, s_ in args], name)
+            return self.rows(node, [self.iter_elements(s_) | fill for _, s_ in args], name)
         if name == "enumerate":
-            return self.rows(node, [set(), self.elements(args[0][1]) if args else set()], name)
+            return self.rows(node, [set(), self.iter_elements(args[0][1]) if args else set()], name)
         if name == "partial":
             return self.new_partial(node, args, kwargs)
         if name in ITER_BUILTINS:
-            return self.new_cont(node, self.elements(A) | cb_results | {x for x in A if x.kind in ("func", "bound")}, name)
+            return self.new_cont(node, self.iter_elements(A) | cb_results | {x for x in A if x.kind in ("func", "bound")}, name)
         if name == "next":
             return self.elements(args[0][1]) | (args[1][1] if len(args) > 1 else set()) if args else set()
         if name == "getattr":
@@ -2763,7 +2829,7 @@ class Analysis:
                             out |= self.wrap_py(v)
             return out
         if fn.qual.startswith("ufo2ft.util:zip_strict@") and node is not None:
-            return self.rows(node, [self.elements(s_) for s_ in pos], "zip_strict")
+            return self.rows(node, [self.iter_elements(s_) for s_ in pos], "zip_strict")
         fnode = fn.node
         if ctx is not None and node is not None and hasattr(node, "lineno"):
             rk = (ctx.key, node.lineno, getattr(node, "col_offset", 0))
@@ -2957,14 +3023,14 @@ class Analysis:
             n = len(target.elts)
             for i, t in enumerate(target.elts):
                 if isinstance(t, ast.Starred):
-                    self.assign(t.value, self.new_cont(node, self.elements(val), "starred"), ctx, node)
+                    self.assign(t.value, self.new_cont(node, self.iter_elements(val), "starred"), ctx, node)
                     continue
                 tv = set()
                 for o in val:
                     if o.kind == "cont" and o.py == n:
                         tv |= self.F[(o, ("pos", i))]  # tuple display of the same arity: position-wise
                     elif o.kind in ("cont", "ext"):
-                        tv |= self.elements({o})
+                        tv |= self.iter_elements({o})
                     else:
                         # pairs are not modelled for items()/zip()/enumerate(): they are flattened, so the
                         # object itself is what gets unpacked
@@ -2983,9 +3049,14 @@ class Analysis:
             self.ev(target.slice, ctx) if not isinstance(target.slice, ast.Slice) else None
             self.mutate({o for o in base if o.kind != "attrs"}, target, "[…] = …")
             keys = (self.strs(target.slice, ctx) or None) if not isinstance(target.slice, ast.Slice) else None
+            keyobjs = self.ev(target.slice, ctx) if not isinstance(target.slice, ast.Slice) else set()
+            if isinstance(target.slice, ast.Slice):
+                val = self.elements(val)  # x[i:j] = iterable stores the ELEMENTS of the iterable
             for o in base:
                 if o.kind in ("SRC", "GS", "NONE"):
                     continue
+                if keyobjs and o.kind in ("cont", "inst", "ext", "glob"):
+                    self.add(self.F[(o, "keys")], keyobjs)
                 if o.kind == "attrs":
                     # x.__dict__[k] = v IS x.k = v
                     self.mutate({o.py}, target, "__dict__[…] = …")
@@ -3181,7 +3252,7 @@ class Analysis:
                 self.add(self.R[ctx.key], {self.NONE})
         elif isinstance(s, (ast.For, ast.AsyncFor)):
             it = self.ev(s.iter, ctx)
-            self.assign(s.target, self.elements(it), ctx, s)
+            self.assign(s.target, self.iter_elements(it), ctx, s)
             self.run_body(s.body, ctx)
             self.run_body(s.orelse, ctx)
         elif isinstance(s, ast.While):
